@@ -162,25 +162,32 @@ class Kernel:
         raise AnalysisError(f"anchor lost: no attribute of BaseEngine assigned from {ctor_names}")
 
     def _read_groupers(self) -> Dict[Tuple[str, str], str]:
-        """(class, attribute) -> CallbackGroup member, read from the constructors:
+        """(class, attribute) -> CallbackGroup member, read from the constructors (helpers inlined):
         `self.validators = self._specs.grouper(CallbackGroup.VALIDATOR)...`"""
+        import json
+        import os
+
+        known = set(json.load(open(os.path.join(os.path.dirname(os.path.abspath(__file__)), "known_functions.json")))["functions"])
         out: Dict[Tuple[str, str], str] = {}
         for cname in ("Transition", "State"):
             c = self.p.cls(cname)
             init = c.method("__init__")
             if init is None:
                 raise AnalysisError(f"anchor lost: {cname}.__init__")
-            for n in own_nodes(init.node):
-                if isinstance(n, ast.Assign) and len(n.targets) == 1 and isinstance(n.targets[0], ast.Attribute):
-                    tgt = n.targets[0]
-                    if not (isinstance(tgt.value, ast.Name) and tgt.value.id == "self"):
-                        continue
-                    for sub in ast.walk(n.value):
-                        if (isinstance(sub, ast.Call) and isinstance(sub.func, ast.Attribute)
-                                and sub.func.attr == "grouper" and sub.args):
-                            a = sub.args[0]
-                            if isinstance(a, ast.Attribute) and isinstance(a.value, ast.Name) and a.value.id == "CallbackGroup":
-                                out[(cname, tgt.attr)] = a.attr
+            e = Enumerator(self.p, self.r, inline=lambda callee, depth, node: callee.key not in known and depth <= 5, max_depth=5,
+                           exc_edges="none", unroll=1)
+            for p in e.paths(init):
+                if p.kind == "raise":
+                    continue
+                for ev in p.events:
+                    if ev.kind == "store" and ev.x.get("attr") and show(ev.term.value) == "self":
+                        v = expand(ev.x["value"], p.events)
+                        for sub in ast.walk(v):
+                            if (isinstance(sub, ast.Call) and isinstance(sub.func, ast.Attribute)
+                                    and sub.func.attr == "grouper" and sub.args):
+                                a = sub.args[0]
+                                if isinstance(a, ast.Attribute) and isinstance(a.value, ast.Name) and a.value.id == "CallbackGroup":
+                                    out.setdefault((cname, ev.x["attr"]), a.attr)
         need = {("Transition", "validators"), ("Transition", "cond"), ("Transition", "before"),
                 ("Transition", "on"), ("Transition", "after"), ("State", "enter"), ("State", "exit")}
         if not need <= set(out):
